@@ -19,9 +19,9 @@ Arguments OutOfFuel {A}.
 
 Definition bind {A B} (m : res A) (f : A -> res B) : res B :=
   match m with Ok a => f a | OOB => OOB | OutOfFuel => OutOfFuel end.
-Notation "x <- m ;; f" := (bind m (fun x => f)) (at level 61, m at next level, right associativity).
+Notation "x <- m ;; f" := (bind m (fun x => f)) (at level 62, m at next level, right associativity).
 Notation "' pat <- m ;; f" := (bind m (fun x => match x with pat => f end))
-  (at level 61, pat pattern, m at next level, right associativity).
+  (at level 62, pat pattern, m at next level, right associativity).
 
 (** checked read / write on a memory object represented as a list *)
 Definition rd (b : bytes) (i : nat) : res Z :=
